@@ -2,7 +2,8 @@ import RedoModel.Lemmas.Once.DepsOnce
 /-!
 Counterexamples to "no script runs twice within one top-level `redo-ifchange`" (`C02.exact_full`), on worlds
 reachable from `initWorld` with every defect switch off: each cleanliness condition of `ran_nodup_of_wf` is
-necessary, and so is the well-formedness of run ids (on an unreachable world).
+necessary, and so are the well-formedness of run ids and the condition `OvOK` on overridden records (both on
+unreachable worlds: they hold in every reachable one).
 -/
 namespace RedoModel.Deps.Once
 open RedoModel.Deps
@@ -47,33 +48,29 @@ theorem ifcreate_twice :
   unfold wC histC rules0
   eval_run
 
-/-- 1 = `t` (11), 2 = `p` (12: `redo-ifchange t`, later edited to declare nothing), 3 = `q` (13: `redo-ifchange t`),
-4 = `r` (14: `redo-ifchange q`). -/
-def rulesF : Nat → List Nat := fun t => if t = 1 ∨ t = 2 ∨ t = 3 ∨ t = 4 then [10 + t] else []
+/-- 3 = `q` (13: `redo-ifchange t`), 4 = `r` (14: `redo-ifchange q`); 1 = `t` is a hand-written file. -/
+def rulesF : Nat → List Nat := fun t => if t = 3 ∨ t = 4 then [10 + t] else []
 
-/-- `t` is built, overwritten by hand and accepted as overridden, `p` is brought up to date, then `t` is removed;
-the check of `p` (whose .do no longer asks for `t`) turns the record of `t` into a source with failure mark 0 and
-the override flag kept; then `t` is written by hand again. -/
 def histF : List UserOp :=
-  [ .setProg (srcContent 1) { },
-    .setProg (srcContent 2) { ifchange := [[1]] },
-    .setProg (srcContent 3) { ifchange := [[1]] },
+  [ .setProg (srcContent 3) { ifchange := [[1]] },
     .setProg (srcContent 4) { ifchange := [[3]] },
-    .setProg (srcContent 5) { },
-    .write 11 1, .write 12 2, .write 13 3, .write 14 4,
-    .cmd (.ifchange [1] false), .cmd (.ifchange [2] false),
-    .write 1 7, .cmd (.ifchange [1] false), .cmd (.ifchange [2] false),
-    .remove 1, .write 12 5, .cmd (.ifchange [2] false),
-    .write 1 9 ]
+    .write 13 3, .write 14 4, .write 1 7,
+    .cmd (.ifchange [3, 4] false) ]
 
-def wF : World := runOps {} 0 histF (initWorld rulesF)
+/-- An unreachable world: the record of the source `t` carries the override flag without being recorded as
+generated, and the failure mark 0.  (Before the vanished-target write of the dirtiness check was repaired to clear
+the override flag, such a record was reachable: build `t`, override it, remove it, let a check find it missing,
+write it again.  Since the repair an overridden record is always a generated one, `og_reachable`.) -/
+def wF : World :=
+  let w := runOps {} 0 histF (initWorld rulesF)
+  { w with recs := fun z => if z = 1 then { w.recs 1 with isOverride := true, isGenerated := false, failed := some 0 }
+      else w.recs z }
 
 set_option maxRecDepth 8000 in
 set_option maxHeartbeats 4000000 in
-/-- The record of `t` (overridden, not generated, failure mark 0) is never repaired — `start_self` leaves such a
-file alone — so every request finds `t` dirty and `q` is rebuilt for each of its two requests in the run.
-Order of execution: q, r, q. -/
-theorem override_unfailed_twice :
+/-- Such a record is never repaired — `start_self` leaves an overridden non-target alone — so every request finds
+`t` dirty and `q` is rebuilt for each of its two requests in the run.  Order of execution: q, r, q. -/
+theorem ovOK_needed :
     ranList (runCmd {} 0 (.ifchange [3, 4] false) { wF with trace := [] }).2 = [3, 4, 3] := by
   unfold wF histF rulesF
   eval_run
@@ -134,7 +131,7 @@ theorem wW_not_wf : ¬ WF wW := by
   have := (h 4).1 100 (by simp [wW])
   simp [wW, runOps, histW, applyOp, initWorld, setFile, newNode] at this
 
-/-! In each reachable counterexample exactly one condition of `Clean` fails. -/
+/-! In each reachable counterexample one condition of `Clean` fails. -/
 
 theorem wC_not_clean : ¬ Clean wC := by
   intro h
@@ -154,18 +151,26 @@ theorem wD_not_clean : ¬ Clean wD := by
 
 set_option maxRecDepth 8000 in
 set_option maxHeartbeats 4000000 in
-theorem wF_not_clean : ¬ Clean wF := by
+/-- The hand-made world violates `OvOK` (and only that: it is well formed, `wF_wf`). -/
+theorem wF_not_ovOK : ¬ OvOK wF := by
   intro h
-  have h1 : (wF.recs 1).isOverride = true := by
-    unfold wF histF rulesF
-    eval_run
+  have h1 : (wF.recs 1).isOverride = true := rfl
   have h2 : existsF wF 1 = true := by
     unfold wF histF rulesF
     eval_run
-  have h3 := (h.ov 1 h1 h2).1
-  revert h3
-  unfold wF histF rulesF
-  eval_run
+  rcases h 1 h1 h2 with h3 | h3
+  · cases h3
+  · cases h3.1
+
+theorem wF_wf : WF wF := by
+  have h : WF (runOps {} 0 histF (initWorld rulesF)) := wf_reachable {} 0 rulesF histF
+  intro f
+  show WFrec (runOps {} 0 histF (initWorld rulesF)).runCounter (wF.recs f)
+  simp only [wF]
+  split
+  · obtain ⟨a1, a2, _, a4⟩ := h 1
+    exact ⟨a1, a2, fun c hc => by cases hc; exact Nat.zero_le _, a4⟩
+  · exact h f
 
 end Cex
 
